@@ -58,6 +58,9 @@ def iterator_vars(fn):
         if d.get('param') or not d.get('init'):
             continue
         real = [w for w in d.get('writes', []) if fn.n(w)['c'] in ('BinaryOperator', 'CompoundAssignOperator', 'UnaryOperator', 'CXXOperatorCallExpr')]
+        # an iterator that is only advanced (++it, it += k) still points into the container it was taken from
+        real = [w for w in real if not ((fn.n(w)['c'] in ('UnaryOperator', 'CXXOperatorCallExpr') and fn.n(w).get('op') in ('++', '--', '+=', '-=')) or
+                                        (fn.n(w)['c'] == 'CompoundAssignOperator' and fn.n(w).get('op') in ('+=', '-=')))]
         if real:
             continue
         ty = fn.unit.tstr(d.get('t', 0))
